@@ -36,11 +36,47 @@ def closure(fns_by_name, root):
         seen.add(n)
         order.append(n)
         fn = fns_by_name[n]
+        dead = _failure_only_blocks(fn)
+        blk = fn.block_of()
+        par = None
         for i, x in fn.calls():
             c = x.get("callee")
             if c and c in fns_by_name and c not in seen:
+                # a call that only happens on the way to a failing return (`if (err) { reset(kHard); return err; }`) does not
+                # contribute to what the entry point does when it succeeds
+                j = i
+                if j not in blk:
+                    par = par or fn.parent_map()
+                    while j not in blk and j in par:
+                        j = par[j]
+                if j in blk and blk[j][0] in dead:
+                    continue
                 stack.append(c)
     return order
+
+
+def _failure_only_blocks(fn):
+    """blocks from which every reachable return statement returns something other than the constant kOk (Error-returning functions only)"""
+    if "Error" not in (fn.raw.get("ret") or ""):
+        return set()
+    ok_blocks, all_ret = set(), set()
+    for b, idx, r in fn.return_sites():
+        all_ret.add(b)
+        v = fn.e(fn.strip(fn.e(r).get("val"))) if fn.e(r).get("val") is not None else None
+        if v is not None and v.get("cvn") == "kOk":
+            ok_blocks.add(b)
+    if not ok_blocks:
+        return set()
+    # blocks that can reach a success return
+    can = set(ok_blocks)
+    changed = True
+    while changed:
+        changed = False
+        for b in fn.blocks:
+            if b not in can and any(s_ in can for s_ in fn.succs(b)):
+                can.add(b)
+                changed = True
+    return {b for b in fn.blocks if b not in can}
 
 
 def object_roots(fn, cls):
@@ -233,3 +269,113 @@ def run(chk, config, rule="R-RESET-COVERS"):
                            key="resetcovers|" + inst)
             chk.need(nreq >= ent.get("min_fields", 1), "class %s: only %d members need reset, expected >= %d" % (cls, nreq, ent.get("min_fields", 1)))
     chk.floor(rule + ":classes", nclasses, len(config["classes"]))
+
+
+def run_embedded(chk, config, rule="R-RESET-COVERS"):
+    """embedded objects (CodeHolder::_text_section): every field of the embedded record is re-initialised in the closure of each entry point"""
+    n = 0
+    for ent in config["classes"]:
+        for member, spec in (ent.get("embedded_complete") or {}).items():
+            cls, unit, ecls = ent["class"], ent["unit"], spec["class"]
+            f = chk.facts(unit, funcs=ent["funcs"] + "|" + re.escape(ecls) + r"::[a-z_0-9]+$",
+                          records="^(" + re.escape(ecls) + "|" + "|".join(re.escape(b) for b in spec.get("bases", [])) + ")$" if spec.get("bases") else "^" + re.escape(ecls) + "$")
+            fields = []
+            for rn, rec in f["records"].items():
+                fields += [x["name"] for x in rec["fields"]]
+            chk.need(len(fields) >= 4, "record %s not found" % ecls)
+            fns = {}
+            byname = {}
+            for fo in f["functions"]:
+                g = cfg.Fn(fo)
+                fns.setdefault(g.name, g)
+                byname.setdefault(g.name, []).append(g)
+
+            def written_through(g, root_did=None, this=False, depth=0):
+                """fields of the embedded record that g writes through its parameter root_did (or through `this`)"""
+                out = set()
+                for i, x in g.ex.items():
+                    tgt = None
+                    if x["k"] == "binop" and x["op"].endswith("=") and x["op"] not in ("==", "!=", "<=", ">="):
+                        tgt = x["lhs"]
+                    elif x["k"] == "unop" and x["op"] in ("++", "--"):
+                        tgt = x["sub"]
+                    if tgt is not None:
+                        r = g.root_ref(tgt)
+                        rx = g.e(r) if r is not None else None
+                        if rx is not None and ((this and rx["k"] == "this") or (root_did is not None and rx.get("did") == root_did)):
+                            p = g.access_path(tgt) or ""
+                            parts = p.split(".")
+                            if len(parts) >= 2:
+                                out.add(parts[1].replace("[]", ""))
+                    if x["k"] in ("mcall",) and x.get("obj") and not x.get("mconst") and depth < 2:
+                        r = g.root_ref(x["obj"])
+                        rx = g.e(r) if r is not None else None
+                        o = g.e(g.strip(x["obj"]))
+                        if rx is not None and o is not None and o["k"] in ("ref", "this", "unop") and ((this and rx["k"] == "this") or (root_did is not None and rx.get("did") == root_did)):
+                            for h in byname.get(x.get("callee") or "", []):
+                                out |= written_through(h, None, True, depth + 1)
+                return out
+            for root in spec.get("roots", ent["roots"]):
+                rq = root if root.startswith("asmjit::") else "asmjit::" + root
+                chk.need(rq in byname, "entry point %s not found in %s" % (root, unit))
+                # closure over all overloads of each name (init(env, base) forwards to init(env, features, base))
+                seen_n, work, glist = set(), [rq], []
+                while work:
+                    nm_ = work.pop()
+                    if nm_ in seen_n or nm_ not in byname:
+                        continue
+                    seen_n.add(nm_)
+                    for g_ in byname[nm_]:
+                        glist.append(g_)
+                        dead = _failure_only_blocks(g_)
+                        blk_ = g_.block_of()
+                        for ci, cx in g_.calls():
+                            if cx.get("callee") in byname and cx["callee"] not in seen_n:
+                                j_ = ci
+                                pm_ = g_.parent_map()
+                                while j_ not in blk_ and j_ in pm_:
+                                    j_ = pm_[j_]
+                                if j_ in blk_ and blk_[j_][0] in dead:
+                                    continue
+                                work.append(cx["callee"])
+                got = set()
+                for g in glist:
+                    # aliases of the embedded member in g: `&self->_text_section`, a local bound to it
+                    alias_dids = set()
+                    for i, x in g.ex.items():
+                        if x["k"] == "decl":
+                            for v in x["vars"]:
+                                if v.get("init") and re.sub(r"\s+", "", g.text(v["init"])).endswith("->" + member) or (v.get("init") and re.sub(r"\s+", "", g.text(v["init"])) in ("&" + member, "&this->" + member)):
+                                    alias_dids.add(v["did"])
+                    for i, x in g.ex.items():
+                        tgt = None
+                        if x["k"] == "binop" and x["op"].endswith("=") and x["op"] not in ("==", "!=", "<=", ">="):
+                            tgt = x["lhs"]
+                        if tgt is not None:
+                            p = g.access_path(tgt) or ""
+                            parts = p.split(".")
+                            if member in parts and parts.index(member) + 1 < len(parts):
+                                got.add(parts[parts.index(member) + 1].replace("[]", ""))
+                            r = g.root_ref(tgt)
+                            rx = g.e(r) if r is not None else None
+                            if rx is not None and rx.get("did") in alias_dids and len(parts) >= 2:
+                                got.add(parts[1].replace("[]", ""))
+                        if x["k"] in ("call", "mcall") and x.get("args"):
+                            for ai, a in enumerate(x["args"]):
+                                at = re.sub(r"\s+", "", g.text(a))
+                                ar = g.e(g.strip(a))
+                                is_alias = at.endswith("->" + member) or at in ("&" + member, "&this->" + member) or (ar is not None and ar["k"] == "ref" and ar.get("did") in alias_dids)
+                                if not is_alias:
+                                    continue
+                                for h in byname.get(x.get("callee") or "", []):
+                                    if ai < len(h.params):
+                                        got |= written_through(h, h.params[ai]["did"])
+                for fld in fields:
+                    n += 1
+                    inst = "%s|%s|%s.%s" % (cls.replace("asmjit::", ""), root.split("::")[-1], member, fld)
+                    ex = spec.get("exempt", {}).get(fld)
+                    chk.ob(rule, inst, fld in got or ex is not None, loc="%s:%d" % (unit, byname[rq][0].line),
+                           detail=("exempt: " + ex) if ex else "field `%s` of the embedded %s `%s` is not re-initialised in the closure of %s: values of the previous "
+                                  "program (flattened offset, virtual size, alignment, flags) survive" % (fld, ecls.replace("asmjit::", ""), member, root),
+                           key="resetcovers|" + inst)
+    return n
